@@ -33,14 +33,16 @@ type c16Used struct {
 }
 
 type c16Cmd struct {
-	C    string          `json:"c"`
-	H    int             `json:"h"`
-	P    int             `json:"p,omitempty"`
-	Tag  int             `json:"tag,omitempty"`
-	Pk   []string        `json:"pk,omitempty"`
-	Mal  int             `json:"mal,omitempty"`
-	Res  string          `json:"res"`
-	Used json.RawMessage `json:"used,omitempty"`
+	C     string          `json:"c"`
+	H     int             `json:"h"`
+	P     int             `json:"p,omitempty"`
+	Tag   int             `json:"tag,omitempty"`
+	Pk    []string        `json:"pk,omitempty"`
+	Mal   int             `json:"mal,omitempty"`
+	Ty    string          `json:"ty,omitempty"`    // "sent": types in the packet, "reused": new-params-bound = 0
+	Fault bool            `json:"fault,omitempty"` // the statement fails at the backend
+	Res   string          `json:"res"`
+	Used  json.RawMessage `json:"used,omitempty"`
 }
 
 type c16Case struct {
@@ -85,6 +87,19 @@ func (in *c16Inst) chunk(n int) []byte {
 		in.chunks[n] = b
 	}
 	return b
+}
+
+// kindOfType: the instantiation kind that is encoded with wire type tp
+func kindOfType(tp byte) int {
+	switch tp {
+	case mysql.TypeLonglong:
+		return 1
+	case mysql.TypeTiny:
+		return 2
+	case mysql.TypeBlob:
+		return 3
+	}
+	return 0
 }
 
 // wire encoding and SQL literal of the inline value <<n,q>>
@@ -165,6 +180,7 @@ func TestVerifStmtLifecycle(t *testing.T) {
 		se := fix.newSession(false)
 		realID := map[int]uint32{}    // handle ordinal -> id given by the proxy
 		lastClear := map[int]string{} // handle -> kind of the last command that (per the specification) cleared it
+		lastTypes := map[int][]byte{} // handle -> type array of the last processed execute that carried types
 		origin := map[string]string{} // literal -> "h<handle>:inline" / "h<handle>:long" (everything sent so far)
 		idOf := func(h int) uint32 {
 			if id, ok := realID[h]; ok {
@@ -187,7 +203,7 @@ func TestVerifStmtLifecycle(t *testing.T) {
 			switch cmd.C {
 			case "prepare":
 				sql, _ := c16Template(cmd.H, c.NP)
-				r := se.ExecuteCommand(mysql.ComStmtPrepare, []byte(sql))
+				r := fix.send(se, mysql.ComStmtPrepare, []byte(sql))
 				st.Got, st.Err = respClass(r)
 				if r.RespType != RespPrepare {
 					res.Dev("C16 prepare refused", "command %d: prepare of %q failed: %s", n, sql, st.Err)
@@ -207,7 +223,7 @@ func TestVerifStmtLifecycle(t *testing.T) {
 				binary.LittleEndian.PutUint16(data[4:6], uint16(cmd.P-1))
 				ch := in.chunk(cmd.Tag)
 				data = append(data, ch...)
-				r := se.ExecuteCommand(mysql.ComStmtSendLongData, data)
+				r := fix.send(se, mysql.ComStmtSendLongData, data)
 				st.Got, st.Err = respClass(r)
 				refused := r.RespType == RespError
 				if cmd.Res == "ok" && refused {
@@ -224,7 +240,7 @@ func TestVerifStmtLifecycle(t *testing.T) {
 			case "reset":
 				data := make([]byte, 4)
 				binary.LittleEndian.PutUint32(data, idOf(cmd.H))
-				r := se.ExecuteCommand(mysql.ComStmtReset, data)
+				r := fix.send(se, mysql.ComStmtReset, data)
 				st.Got, st.Err = respClass(r)
 				refused := r.RespType == RespError
 				if cmd.Res == "ok" && refused {
@@ -240,7 +256,7 @@ func TestVerifStmtLifecycle(t *testing.T) {
 			case "close":
 				data := make([]byte, 4)
 				binary.LittleEndian.PutUint32(data, idOf(cmd.H))
-				r := se.ExecuteCommand(mysql.ComStmtClose, data)
+				r := fix.send(se, mysql.ComStmtClose, data)
 				st.Got, st.Err = respClass(r)
 				lastClear[cmd.H] = "closed"
 			case "exec":
@@ -262,6 +278,10 @@ func TestVerifStmtLifecycle(t *testing.T) {
 					case "long":
 						types = append(types, mysql.TypeBlob, 0)
 					default:
+						if cmd.Ty == "reused" {
+							// no types in this packet: the value must be encoded with the type sent last time
+							in.kinds[[2]int{n, p}] = kindOfType(lastTypes[cmd.H][2*(p-1)])
+						}
 						tp, enc, lit := in.inline(n, p)
 						flag := byte(0)
 						if tp == mysql.TypeLonglong || tp == mysql.TypeTiny {
@@ -281,16 +301,21 @@ func TestVerifStmtLifecycle(t *testing.T) {
 					}
 				}
 				data = append(data, nullmap...)
-				data = append(data, 1)
-				if cmd.Mal == c.NP+1 {
+				switch {
+				case cmd.Ty == "reused":
+					data = append(data, 0) // new-params-bound = 0: the types of the previous execution apply
+					data = append(data, values...)
+				case cmd.Mal == c.NP+1:
+					data = append(data, 1)
 					data = append(data, types[:1]...) // truncated inside the type array
-				} else {
+				default:
+					data = append(data, 1)
 					data = append(data, types...)
 					data = append(data, values...)
 				}
 				// ---- expected statement
 				want := ""
-				if cmd.Res == "ok" {
+				if cmd.Res == "ok" || cmd.Res == "backend-error" {
 					var used []c16Used
 					if err := json.Unmarshal(cmd.Used, &used); err != nil {
 						return fmt.Errorf("case %d command %d: used: %v", ci, n, err)
@@ -318,7 +343,9 @@ func TestVerifStmtLifecycle(t *testing.T) {
 				}
 				st.Want = want
 				fix.be.take()
-				r := se.ExecuteCommand(mysql.ComStmtExecute, data)
+				fix.be.failNext = cmd.Fault
+				r := fix.send(se, mysql.ComStmtExecute, data)
+				fix.be.failNext = false
 				st.Got, st.Err = respClass(r)
 				st.SQL = fix.be.take()
 				failed := r.RespType == RespError
@@ -343,9 +370,17 @@ func TestVerifStmtLifecycle(t *testing.T) {
 						res.Dev(fmt.Sprintf("%s: truncated packet (%s) executed", where, kind), "command %d: packet truncated at %d was executed: %q", n, cmd.Mal, st.SQL)
 					}
 					lastClear[cmd.H] = "exec-malformed(" + kind + ")"
-				case "ok":
+				case "ok", "backend-error":
+					if cmd.Ty != "reused" {
+						lastTypes[cmd.H] = types
+					}
 					switch {
-					case failed:
+					case cmd.Res == "backend-error" && !failed:
+						res.Dev(where+": backend failure not reported", "command %d: the backend failed %q, reply %s", n, st.SQL, st.Got)
+					case failed && cmd.Res == "backend-error" && len(st.SQL) == 0:
+						res.Dev(where+": well-formed packet refused", "command %d: %s; expected to run %q", n, st.Err, want)
+						stop = true
+					case failed && cmd.Res == "ok":
 						res.Dev(where+": well-formed packet refused", "command %d: %s; expected to run %q", n, st.Err, want)
 						stop = true // the implementation did not reach its own reset: its statement state is unknown
 					case len(st.SQL) != 1:
@@ -373,7 +408,11 @@ func TestVerifStmtLifecycle(t *testing.T) {
 						res.Dev(fmt.Sprintf("%s: wrong values (%s)", where, strings.Join(ks, "+")),
 							"command %d: executed %q, the specification requires %q", n, obs, want)
 					}
-					lastClear[cmd.H] = "exec-ok"
+					if cmd.Res == "ok" {
+						lastClear[cmd.H] = "exec-ok"
+					} else {
+						lastClear[cmd.H] = "exec-backend-error"
+					}
 				}
 			}
 			steps = append(steps, st)
